@@ -125,6 +125,7 @@ fn check(c: &Case, obs: &mut Obs) -> Result<(), Fail> {
             aux_form: 0,
             early_multiasset: false,
             ref_inputs: 0,
+            donation: None,
         };
         let tw = Tweaks { change_delta: if t.unbalanced { 1 } else { 0 }, ..Default::default() };
         match forge::forge_with(&spec, &tw) {
@@ -204,6 +205,23 @@ fn check(c: &Case, obs: &mut Obs) -> Result<(), Fail> {
             keys.sort();
             pv_ensure!(after.starts_with(&format!("rewards{keys:?} ")), "registered-keys-differ-from-model",
                 "after success the registered stake keys are not the model's: {after} vs {keys:?}");
+        }
+        // where each transaction sits in the sequence, checked without the single-transaction rule: a registration that is
+        // the first certificate of the transaction at position k gets the pointer (slot, k, 0)
+        let slot = crate::forge::block_slot(c.era);
+        for (k, t) in c.txs.iter().enumerate() {
+            if let Some((true, key)) = t.certs.first() {
+                let mentions = c.txs.iter().flat_map(|x| x.certs.iter()).filter(|(_, kk)| kk == key).count();
+                if mentions != 1 {
+                    continue;
+                }
+                let want = cred(*key);
+                let found = live.dstate.ptrs.iter().find(|(p, _)| p.slot == slot && p.tx_ix == k as u32 && p.cert_ix == 0).map(|(_, c)| c.clone());
+                pv_ensure!(found.as_ref() == Some(&want), "registration-pointer-not-at-sequence-position",
+                    "transaction {k} of the sequence registers {:?} with its first certificate; expected the pointer ({slot}, {k}, 0) for it, found {:?} there (all pointers: {})",
+                    want, found, snapshot(&live));
+                obs.class("pointer-position-checked");
+            }
         }
         obs.class("all-valid");
         obs.nontrivial_if(c.txs.iter().any(|t| !t.certs.is_empty()));
